@@ -75,6 +75,28 @@ CLAIMED = {
              "(pure-Python implementation), CPython. A defect that is "
              "identical with and without the rejected steps is invisible "
              "to this oracle by construction."),
+    'C17': dict(
+        ref='DESIGN.md 4.5',
+        technique="deterministic simulation, restart-and-compare: one "
+                  "program (declarations + operations) is run as 3-6 "
+                  "seeded histories (declaration orders, operations before "
+                  "/ after their result type exists, repeated operations, "
+                  "memo evictions, rejected declarations as noise), each "
+                  "in a fresh forked interpreter state; results are "
+                  "compared between histories",
+        text="Seeded exploration of programs and, per program, of several "
+             "evaluation histories in fresh worlds; every evaluation of an "
+             "operation made while its result type (unit) is declared must "
+             "give the same type and exact base-unit amount in all "
+             "histories and positions, an operation that raised "
+             "UndefinedResultError must not raise it after the missing "
+             "declaration, and a repeated operation must return an equal "
+             "result. Bounded (<=22 declarations, <=12 operations, <=6 "
+             "histories per program) and sampled.",
+        note="Trusted: the model only for the precondition 'result type / "
+             "unit declared here', decimalfp (pure-Python implementation), "
+             "CPython. A value that is wrong in the same way in all "
+             "histories is invisible to this oracle by construction."),
 }
 NA = {
     'C01': "pure function of (amount, unit, unit) once units are declared; no schedule, clock, fault or history in the statement. The residue 'a declared chain has the scale it denotes' is exercised by the C15 check.",
